@@ -109,6 +109,10 @@ def run(ctx):
     report_l2(ctx, other)
     from props._engine_common import run_runnerdiff
     run_runnerdiff(ctx, ctx.n(60, 1500), 'C03_idle_never_with_pending_retry / C03_idle_before_delivered_event_refuted')
+    # a retry whose delay has elapsed is accepted work with free capacity: the timer heap hands out everything that is due
+    # (three or more wake-ups pending at once, handed out in several pops)
+    from suites import timerheap as TH
+    TH.run_suite(ctx, ctx.n(400, 8000), "C03", "C06_run_loop_wait_step_fires_exactly_what_is_due (everything due fires)")
 
 
 def replay(ctx, path):
